@@ -414,7 +414,7 @@ def _case(seed: int) -> Dict[str, Any]:
     two_ranks = seed % 5 == 2  # one call graph over two ranks, the SECOND one is checked (per-rank bookkeeping must not leak across ranks)
     if two_ranks:
         nthreads = 2  # a ProfilerStep thread and a backward thread on every rank
-    kw = dict(n_threads=nthreads, n_streams=1 + seed % 2, steps=1 + seed % 2, p_launch=0.7, p_zero=0.0, min_launch_q=1, p_sync=0.0, p_missing_kernel=0.1, p_orphan_kernel=0.05, n_top=2 + seed % 2, max_depth=3)
+    kw = dict(n_threads=nthreads, n_streams=1 + seed % 2, steps=1 + seed % 2, p_launch=0.7, p_zero=0.0, min_launch_q=1, p_sync=0.0, p_missing_kernel=0.1, p_orphan_kernel=0.05 if seed % 3 else 0.2, n_top=2 + seed % 2, max_depth=3)
     if seed % 2 == 1:  # the backward / other host threads have smaller ids than the profiler-step thread: their call stacks (and nodes) are built first
         kw.update(main_tid=40, other_tids_below=True)
     bwd_tid = (kw.get("main_tid", 1) + 1) if seed % 4 != 3 else 3
@@ -476,6 +476,13 @@ def _run_case(seed: int, per_rank, check_rank: int = 0, ranks=(0,), builds: int 
         def bad(what, obs, exp=None):
             fails.append({"what": what, "input": inp, "observed": obs, "expected": exp})
 
+        # a device activity whose launching call is not in the trace (no host event carries its correlation id) hangs under no event
+        corr_of = {int(i): int(c) for i, c in zip(df["index"], df["correlation"])}
+        host_corrs = {corr_of[i] for i, rw in rows.items() if rw["stream"] < 0 and corr_of[i] >= 0}
+        for i, rw in rows.items():
+            if rw["stream"] > 0 and corr_of[i] not in host_corrs and rw["parent"] >= 0:
+                bad("device_activity_without_launch_call_has_no_parent", {"event": i, "correlation": corr_of[i], "parent": rw["parent"]}, "no parent (-1)")
+                break
         # device activities are children of their launch call
         for i, rw in rows.items():
             if rw["stream"] > 0 and rw["ic"] > 0 and rw["ic"] in rows:
